@@ -27,8 +27,14 @@ git apply "$d/patch.diff"
 r2=$(timeout 1800 cargo test --offline --test demo_test 2>&1 | grep -E "^test result|^error" | head -3)
 say "CONFIRM demo with patch: $r2"
 rm -f $W/tests/demo_test.rs
-r3=$(timeout 3600 cargo test --offline --workspace --no-fail-fast 2>&1 | grep -E "\.\.\. FAILED|^error(\[|:)" | sort | uniq | head -10)
+r3=$(timeout 3600 cargo test --offline --workspace --no-fail-fast 2>&1 | grep -E "\.\.\. FAILED|^error\[" | sort | uniq | head -10)
 say "CONFIRM suite with patch, failing tests: ${r3:-none}"
+# tests other than the known always-failing one: re-run each alone (the machine is shared; ICE tests on real sockets flake under load)
+for t in $(echo "$r3" | grep "FAILED" | grep -v reinvite_answer_audio_codecs_follow_remote_offer_subset | awk '{print $2}'); do
+  pass=0; for k in 1 2 3; do timeout 600 cargo test --offline --lib "$t" 2>&1 | grep -q "test result: ok" && pass=$((pass+1)); done
+  say "CONFIRM re-run of $t alone with patch: $pass/3 passed"
+  [ $pass = 3 ] && r3=$(echo "$r3" | grep -v "$t")
+done
 git -C $W checkout -q -- . ; git -C $W clean -qfd src tests >/dev/null 2>&1
 ok=1
 echo "$r1" | grep -q "test result: ok" || ok=0
